@@ -205,3 +205,18 @@ Section PatherRound.
     - rewrite Hc. apply Nat.le_min_r.
   Qed.
 End PatherRound.
+
+(* ---- a clock without a Pather (no SCION daemon address configured) ----
+   no path is available: the round reports errNoPath and resets every client, for every client state, tape and
+   context; with a Pather the clock's round is the Pather's round *)
+Theorem clock_round_no_pather c q cs d tape mss vss :
+  clock_round c None q cs d tape mss vss
+  = RNoPath (map reset_client cs) (map (fun _ => true) cs) tape.
+Proof.
+  unfold clock_round, clock_paths, run_round_c. cbn [map]. rewrite no_paths_error. f_equal.
+  unfold post_reset. induction cs as [|s r IH]; [reflexivity|]. cbn [map combine fst snd]. rewrite IH. reflexivity.
+Qed.
+
+Lemma clock_round_some c st q cs d tape mss vss :
+  clock_round c (Some st) q cs d tape mss vss = pather_round c st q cs d tape mss vss.
+Proof. reflexivity. Qed.
